@@ -89,9 +89,17 @@ _xml_prefixes = tuple(
 
 _xml_decl = encode_string("<?xml")
 
+# The two attributes of the meta element, in either order; an unquoted
+# value ends at white space or at the end of the tag.
+_META_HTTP_EQUIV = r'http-equiv\s*=\s*["\']?Content-Type["\']?'
+_META_CONTENT = (
+    r'content\s*=\s*["\']?([^;"\'>]+);\s*charset\s*=\s*([^"\'\s/>]+)["\']?'
+)
 RE_META = re.compile(
-    r'\s*<meta\s+http-equiv=["\']?Content-Type["\']?'
-    r'\s+content=["\']?([^;]+);\s*charset=([^"\']+)["\']?\s*/?\s*>\s*',
+    r'\s*<meta\s+(?:' +
+    _META_HTTP_EQUIV + r'\s+' + _META_CONTENT + '|' +
+    _META_CONTENT + r'\s+' + _META_HTTP_EQUIV +
+    r')\s*/?\s*>\s*',
     re.IGNORECASE
 )
 
@@ -141,15 +149,18 @@ def detect_encoding(
 
     match = RE_META.search(body)
     if match is not None:
-        # this can be treated like tuple[str, str] since we unpack it
-        return match.groups()  # type: ignore[return-value]
+        groups = match.groups()
+        # (content type, charset) of whichever attribute order matched
+        return (groups[0] or groups[2]), (groups[1] or groups[3])
 
     return None, default_encoding
 
 
 def read_xml_encoding(body: bytes) -> str | None:
     if body.startswith(b'<?xml'):
-        match = RE_ENCODING.search(body)
+        # only the declaration itself names the encoding
+        end = body.find(b'?>')
+        match = RE_ENCODING.search(body, 0, end if end >= 0 else len(body))
         if match is not None:
             return match.group('encoding').decode('ascii')
     return None
